@@ -50,7 +50,7 @@ class FSpec:
         if dec:
             lines.append(ind + dec)
         for _ in range(getattr(self, "wraps", 0)):
-            lines.append(ind + "@_deco")          # stacked functools.wraps decorators
+            lines.append(ind + "@" + getattr(self, "deco", "_deco"))   # stacked decorators (functools.wraps or hand-written)
         parts = []
         prev = None
         for p in self.params:
@@ -202,6 +202,16 @@ def wrapped_async_specs(rnd, base):
         s.flavour = "coroutine" if j < 2 else rnd.choice(FLAVOURS)
         s.wraps = rnd.choice([2, 3])
         out.append(s)
+    # hand-written decorators that set __wrapped__ but keep their own __name__ / __qualname__
+    for j, (path, fkind, flavour) in enumerate([([], "MODULE", "plain"), ([], "MODULE", "coroutine"),
+                                                 (["Outer"], "INSTANCE", rnd.choice(["plain", "coroutine"])),
+                                                 (["Zeta"], "INSTANCE", "plain")]):
+        if rnd.random() < 0.6:
+            s = make_spec(rnd, f"handwrapped{base + j}", path, fkind, max_params=3)
+            s.flavour = flavour
+            s.wraps = rnd.choice([1, 2])
+            s.deco = "_plain_deco"
+            out.append(s)
     last = make_spec(rnd, "zz_sorts_last", rnd.choice([["Outer"], ["Zeta"]]), rnd.choice(["INSTANCE", "CLASS", "STATIC"]), 2)
     last.flavour = "coroutine"
     out.append(last)
@@ -298,6 +308,9 @@ def history_specs(rnd, n=8):
 def module_source(specs):
     out = ["import functools", "from typing import Dict, List, Optional", "from unittest.mock import ANY", "", "",
            "def _deco(f):", "    @functools.wraps(f)", "    def wrapper(*args, **kwargs):", "        return f(*args, **kwargs)",
+           "    return wrapper", "", "",
+           "def _plain_deco(f):", "    def wrapper(*args, **kwargs):", "        return f(*args, **kwargs)",
+           "    wrapper.__wrapped__ = f      # hand-written: no functools.wraps, the wrapper keeps its own __qualname__",
            "    return wrapper", "", ""]
     for s in specs:
         if not s.path:
